@@ -375,6 +375,8 @@ def run(P, C, tier):
                     C.ob("R7", "json-literal:%s#%d" % (mir.short(b.id), len([o for o in C.obligations if o["key"].startswith("C14/R7/json-literal:%s#" % mir.short(b.id))])), ok, "%s:%d" % (b.file, st["at"][0]), why)
     C.floor("R7", "assignments of Node._json", n7, 5)
     r8_paging_length(P, C)
+    r9_value_kinds(P, C)
+    r10_insert_field(P, C)
 
 
 def r8_paging_length(P, C):
@@ -448,6 +450,137 @@ def r8_paging_length(P, C):
                     entries.append(tg2)
     ok = bool(entries) and all(not (fin.reachable(e, avoid_blocks={sb}) & oks) for e in entries)
     C.ob("R8", "paging-length-on-every-accepting-path", ok, fin.loc(sb), "from the `paging is not empty` edge no Ok exit is reachable without the comparison (%d entry edges)" % len(entries))
+
+
+def r9_value_kinds(P, C):
+    """`_ => unreachable!()` arms of MutationQuery::get_mutate_query (census class T) rest on the mutation parser: for a
+    field of a given FieldType it only ever builds certain MutationFieldValue kinds.  Writer's and reader's tables are
+    both read from the code and must agree: every (field type, value kind) pair the parser can build has an arm."""
+    C.rule("R9", "the (field type, value kind) pairs built by the mutation parser are all handled by an explicit arm of the mutation compiler (the unreachable! arms are unreachable)")
+    ft = P.adts.get("database::query_language::FieldType")
+    mv = P.adts.get("database::query_language::mutation_parser::MutationFieldValue")
+    if ft is None or mv is None:
+        C.anchor_missing("R9", "FieldType / MutationFieldValue", "enum not found")
+        return
+    ALL_FT = [v["name"] for v in ft["variants"]]
+
+    def ft_guard(b, bi):
+        """field types possible at block bi (from the dominating matches on a FieldType), None = any"""
+        out = None
+        for s_, vals, term in b.guards(bi):
+            dv = mir.discr_variants(term, vals)
+            if not dv or not term[2].endswith("::FieldType"):
+                continue
+            names = set(x for x in dv[1] if x != "otherwise")
+            if "otherwise" in dv[1]:
+                tt = b.blocks[s_]["t"]
+                table = dict(term[3])
+                explicit = {table.get(v) for v, tg in tt["targets"] if tg != tt["otherwise"]}
+                names |= set(ALL_FT) - explicit
+            out = names if out is None else (out & names)
+        return out
+    produced = []   # (field types, kind, site)
+    for b in P.in_file("src/database/query_language/mutation_parser.rs"):
+        if b.from_expansion:
+            continue
+        hit = False
+        for bi in sorted(b.live_blocks()):
+            for si, st in enumerate(b.blocks[bi]["s"]):
+                rv = st["rv"]
+                kind = None
+                if st["lhs"][-1:] == [".field_value"] and len(st["lhs"]) > 1:
+                    u = mir.strip(b.def_term(bi, si, rv, 0))
+                    kind = u[3] if u[0] == "aggr" and u[2].endswith("MutationFieldValue") else "?"
+                elif rv["r"] == "aggr" and rv.get("adt", "").endswith("mutation_parser::MutationField") and "field_value" in (rv.get("fields") or []):
+                    t = b.def_term(bi, si, rv, 0)
+                    u = mir.strip(t[4][t[5].index("field_value")])
+                    kind = u[3] if u[0] == "aggr" and u[2].endswith("MutationFieldValue") else "?"
+                    if b.id.endswith("MutationField::new"):
+                        continue   # placeholder overwritten by every parse_*_type before the field is stored
+                if kind is not None:
+                    fts = ft_guard(b, bi)
+                    produced.append((sorted(fts) if fts is not None else ALL_FT, kind, "%s:%d" % (b.file, st["at"][0])))
+                    hit = True
+        if hit:
+            C.saw(b)
+    C.floor("R9", "sites of the mutation parser that build a field value", len(produced), 10)
+    try:
+        gm = P.body("MutationQuery::get_mutate_query")
+    except mir.MissingAnchor as e:
+        C.anchor_missing("R9", "get_mutate_query", e)
+        return
+    C.saw(gm)
+    n = 0
+    for bi, kind, name, t in panics.sites(P, gm):
+        if kind != "unreachable!":
+            continue
+        arm_ft = ft_guard(gm, bi)
+        handled = None
+        for s_, vals, term in gm.guards(bi):
+            dv = mir.discr_variants(term, vals)
+            if dv and term[2].endswith("MutationFieldValue") and "otherwise" in dv[1]:
+                tt = gm.blocks[s_]["t"]
+                table = dict(term[3])
+                handled = {table.get(v) for v, tg in tt["targets"] if tg != tt["otherwise"]}
+        if arm_ft is None or handled is None:
+            continue
+        n += 1
+        bad = []
+        for fts, k, site in produced:
+            common = set(fts) & arm_ft
+            if common and k not in handled:
+                bad.append("%s builds %s for %s" % (site, k, sorted(common)))
+        C.ob("R9", "kinds:%s" % "+".join(sorted(arm_ft)), not bad, gm.loc(bi),
+             "fields of type %s: the compiler handles %s, everything else is unreachable!(); the parser builds for these types: %s%s" % (
+                 sorted(arm_ft), sorted(handled), sorted({k for fts, k, _ in produced if set(fts) & arm_ft}), "" if not bad else " -- NOT handled: %s" % bad[:3]))
+    C.floor("R9", "unreachable! arms of get_mutate_query keyed by field type", n, 4)
+
+
+def r10_insert_field(P, C):
+    """Entity::insert_field panics on a duplicate name (census class T).  Producer side: it has exactly two callers;
+    add_field calls it only on the false edge of fields.contains_key(name); update calls it only for the fields left in
+    the new definition after every existing field name was taken out of it (a missing one is an Err)."""
+    C.rule("R10", "Entity::insert_field is reached only with a name that is absent from the entity: add_field tests contains_key, update removes every existing name from the new definition first")
+    sites = P.call_sites(r"data_model_parser::Entity::insert_field$")
+    owners = sorted(mir.short(P.owner_fn(cb.id)) for cb, bi, t in sites)
+    C.ob("R10", "callers", owners == ["Entity::add_field", "Entity::update"], "src/database/query_language/data_model_parser.rs", "callers of insert_field: %s" % owners, nontrivial=False)
+    for cb, bi, t in sites:
+        owner = mir.short(P.owner_fn(cb.id))
+        C.saw(cb)
+        if owner == "Entity::add_field":
+            ok = False
+            for s_, vals, term in cb.guards(bi, expand_vars=True):
+                atom, truth = mir.cond_atoms(term, vals)
+                if atom[0] == "call" and atom[1].endswith("HashMap::contains_key") and truth is False and cb.cpath(atom[2][0]) == "‹Entity›.fields":
+                    ok = mir.strip(atom[2][1])[0] == "field" and mir.strip(atom[2][1])[2] == "name"
+            C.ob("R10", "add_field:absent", ok, cb.loc(bi), "insert_field only on the false edge of self.fields.contains_key(&field.name)")
+        elif owner == "Entity::update":
+            # the loop over the existing fields removes each of their names from the new definition; None => Err
+            ok = False
+            for rb, rt in cb.calls_to(r"HashMap::remove$"):
+                a = cb.call_args(rb)
+                recv = cb.cpath(a[0])
+                keyp = mir.full_path(cb, a[1])
+                selfname = [n for l, n, lty, lf in cb.named_locals() if lf[0] == "param" and l == 1]
+                from_self = bool(selfname) and re.search(r"^%s\.fields\.\[\]" % re.escape(selfname[0]), keyp) is not None
+                root = a[0]
+                while root[0] in ("ref", "deref", "field"):
+                    root = root[1]
+                if recv != "‹Entity›.fields" or not from_self or (root[0] == "param" and root[2] == 1):
+                    continue   # the map the names are taken out of is the *new* definition, not self
+                hdr = rights.enclosing_loop_header(cb, rb)
+                if hdr is None:
+                    continue
+                # every iteration over the existing fields performs the removal (no path back to the loop header skips it) ...
+                re_ = mir.result_edges(cb, hdr)
+                entry = re_["ok"] if re_ and "ok" in re_ else None
+                every = entry is not None and hdr not in cb.reachable(entry, avoid_blocks={rb})
+                # ... and the insertion happens after that loop has finished
+                after = cb.dominates(hdr, bi) and bi not in {x for x in cb.reach_after(hdr) if hdr in cb.reach_after(x)}
+                ok = ok or (every and after)
+            C.ob("R10", "update:only-new-names", ok, cb.loc(bi), "insert_field after the loop in which every existing field name is removed from the new definition (no iteration skips the removal)")
+        else:
+            C.ob("R10", "caller:" + owner, False, cb.loc(bi), "unaudited caller of insert_field")
 
 
 def paren_delta(a):
